@@ -76,7 +76,7 @@ func (e *Engine) call(fr *Frame, st *State, ins ssa.Instruction, cc *ssa.CallCom
 // receiver first ("ledger.StateLedger.GetBalance"), then the interface that declares the method.
 func (e *Engine) invokeKey(cc *ssa.CallCommon) string {
 	if n, ok := cc.Value.Type().(*types.Named); ok && n.Obj().Pkg() != nil {
-		k := shortPkg(n.Obj().Pkg().Path()) + "." + n.Obj().Name() + "." + cc.Method.Name()
+		k := n.Obj().Pkg().Name() + "." + n.Obj().Name() + "." + cc.Method.Name()
 		if _, has := e.db.Contracts[k]; has {
 			return k
 		}
@@ -111,6 +111,11 @@ func (e *Engine) callFunc(fr *Frame, st *State, ins ssa.Instruction, fn *ssa.Fun
 	key := funcKey(fn)
 	if v, ok := e.intrinsic(fr, st, ins, key, fn, args, resType); ok {
 		return v, nil
+	}
+	if len(key) > 4 && key[:4] == "fsm." {
+		if v, sts, ok := e.fsmIntrinsic(fr, st, ins, key, args, resType); ok {
+			return v, sts
+		}
 	}
 	c := e.db.Contracts[key]
 	if fn.Parent() != nil && c == nil {
@@ -163,6 +168,25 @@ func (e *Engine) inline(fr *Frame, st *State, fn *ssa.Function, bindings []Val, 
 	if len(normal) == 0 {
 		st.dead = true
 		return Val{}, []*State{}
+	}
+	if len(normal) > 1 && e.mergeInlined {
+		sts := make([]*State, len(normal))
+		rs := make([]Val, len(normal))
+		for i, o := range normal {
+			sts[i], rs[i] = o.st, pack(o.results)
+		}
+		sts, rs = mergeOutcomes(sts, rs)
+		normal = normal[:0]
+		for i := range sts {
+			r := rs[i]
+			var results []Val
+			if tp, ok := resType.(*types.Tuple); ok && tp.Len() != 1 {
+				results = r.Fs
+			} else {
+				results = []Val{r}
+			}
+			normal = append(normal, Outcome{st: sts[i], results: results})
+		}
 	}
 	if len(normal) == 1 {
 		if normal[0].st == st {
@@ -264,6 +288,9 @@ func (e *Engine) applyContract(fr *Frame, st *State, ins ssa.Instruction, c *Con
 	}
 	// preconditions
 	for _, r := range c.Requires {
+		if len(r.Props) > 0 && !contains(r.Props, e.curProp) {
+			continue
+		}
 		env := &SpecEnv{e: e, pre: st, post: st, vars: vars, pkg: pkg}
 		g := env.evalBool(r.E)
 		e.emit(&Obligation{Kind: "pre-call", Fn: funcKey(e.curFn), Label: key + ":" + orStr(r.Label, r.Src), PC: st.pc, Goal: g, Src: r.Src, Line: e.pos(ins), Trace: st.trace})
@@ -308,6 +335,17 @@ func (e *Engine) applyContract(fr *Frame, st *State, ins ssa.Instruction, c *Con
 		env := &SpecEnv{e: e, pre: old, post: st, vars: vars, pkg: pkg, allocBefore: allocBefore}
 		st.assume(env.evalBool(en.E))
 	}
+	for _, sc := range c.Sets {
+		// ghost assignment at exit: value computed over the post-state of the Go heap and the pre-state of ghosts named old()
+		env := &SpecEnv{e: e, pre: old, post: st, vars: vars, pkg: pkg, allocBefore: allocBefore}
+		v := env.eval(sc.E)
+		g := e.db.Ghosts[sc.Ghost]
+		if g == nil {
+			unsupp("sets: unknown ghost %s", sc.Ghost)
+		}
+		cur := st.heapGet("G:"+sc.Ghost, ghostSort(g.Type))
+		st.assume(Eq(cur, v.V.T))
+	}
 	if c.Pure {
 		// deterministic function of its scalar arguments
 		ls := leaves(resType)
@@ -347,12 +385,13 @@ func countRefs(t types.Type) int {
 }
 
 // havocItem havocs one item of a modifies clause.
-//   Ghost                ghost variable
-//   big                  every big.Int value
-//   *                    everything
-//   x.f / x.f.g          one field of the object x evaluates to (x a parameter)
-//   pkg.Type.f           field f of every pkg.Type
-//   elems(x)             elements of slice x ; map(x) contents of map x
+//
+//	Ghost                ghost variable
+//	big                  every big.Int value
+//	*                    everything
+//	x.f / x.f.g          one field of the object x evaluates to (x a parameter)
+//	pkg.Type.f           field f of every pkg.Type
+//	elems(x)             elements of slice x ; map(x) contents of map x
 func (e *Engine) havocItem(st *State, env *SpecEnv, item string) {
 	item = strings.TrimSpace(item)
 	switch {
@@ -399,6 +438,14 @@ func (e *Engine) havocItem(st *State, env *SpecEnv, item string) {
 			st.bigSet(v.V.T, Fresh("hv_big", SInt))
 		case "obj":
 			e.havocObject(st, v.V, v.T)
+		case "dyn":
+			// the object behind an interface value: needs a statically known dynamic type
+			if id, ok := v.V.Fs[0].T.intVal(); ok && id.IsInt64() && typeIDTypes[id.Int64()] != nil {
+				dt := typeIDTypes[id.Int64()]
+				e.havocObject(st, Val{T: v.V.Fs[1].T}, dt)
+			} else {
+				st.havocAll()
+			}
 		default:
 			unsupp("modifies item %q", item)
 		}
